@@ -62,8 +62,8 @@ pub fn lib_only() -> bool {
 /// profile (no debug assertions, no overflow checks): behaviour that differs between build profiles.
 fn release_lane(prop: &str, tier: Tier) -> bool {
     match prop {
-        "C01" | "C03" | "C04" | "C05" | "C06" | "C08" | "C10" | "C17" | "C19" | "C20" => true,
-        "C02" | "C07" | "C15" | "C18" => tier == Tier::Thorough,
+        "C01" | "C03" | "C04" | "C05" | "C06" | "C07" | "C08" | "C10" | "C17" | "C19" | "C20" => true,
+        "C02" | "C15" | "C18" => tier == Tier::Thorough,
         _ => false,
     }
 }
